@@ -258,15 +258,24 @@ def deserializeLoop (S : Schema) (d : StructDef) (sizeMember : Option String) : 
       let flushed := waiting.flatMap fun q => deserializeFieldLines S d sizeMember q (some (f.name ++ "_condition"))
       deserializeLoop S d sizeMember rest { st with lines := st.lines ++ own ++ flushed, processed := st.processed ++ [f.name] }
 
+/-- `size_field` of `get_deserialize_descriptor`: the own member named by `@size` -/
+def ownSizeMember (d : StructDef) : Option Field :=
+  (ownFields d).find? fun f => match f.kind with | .sizeF _ => true | _ => false
+
+/-- `size_name`: the local variable holding the struct's size (`size_` = `len(buffer)` without a size member) -/
+def sizeLocal (d : StructDef) : String :=
+  match ownSizeMember d with
+  | some f => fixSizeName (printerName f.name)
+  | none => "size_"
+
 /-- body of `deserialize` (concrete struct) or `_deserialize` (abstract struct) -/
 def deserializeBody (S : Schema) (ty : String) (d : StructDef) : List String :=
   let own := ownFields d
   let sizeMember := match d.fields.head? with
     | some ⟨n, .sizeF _, _⟩ => some (printerName n)
     | _ => none
-  let hasOwnSize := own.any (·.name == "size")
   let header :=
-    (if d.abstract then (if hasOwnSize then [] else ["size_ = len(buffer)"])
+    (if d.abstract then (if (ownSizeMember d).isSome then [] else ["size_ = len(buffer)"])
      else ["buffer = memoryview(payload)", "instance = " ++ ty ++ "()"]) ++
     (match d.base with
      | some b => ["(window_start, window_end) = " ++ b ++ "._deserialize(buffer, instance)", "buffer = buffer[window_start:window_end]"]
@@ -275,7 +284,7 @@ def deserializeBody (S : Schema) (ty : String) (d : StructDef) : List String :=
   let carrying := own.filter fun f => f.kind.carries
   let sets := carrying.map fun f => "instance._" ++ printerName f.name ++ " = " ++ printerName f.name
   header ++ fields ++ ["", "# pylint: disable=protected-access"] ++ sets ++
-    [if d.abstract then "return (size_ - len(buffer), size_)" else "return instance"]
+    [if d.abstract then "return (" ++ sizeLocal d ++ " - len(buffer), " ++ sizeLocal d ++ ")" else "return instance"]
 
 end SymbolVerif.Codec
 
